@@ -147,3 +147,24 @@ Theorem C07_scanner_reads_printed_tokens_back : forall ts, Forall tok_printable 
   exists ts', scan_text (print_tokens ts) = Ok (STokens ts') /\ map kind ts' = ts.
 Proof. exact scan_print. Qed.
 Print Assumptions C07_scanner_reads_printed_tokens_back.
+
+(* ------------------------------------------------------------------ the CHECKER terminates
+   (Check/InferFuel.v, InferFuel2.v): its result is monotone in the fuel (once it is not "out of
+   fuel" more fuel changes nothing), and a fuel computable from the size of the program
+   ([check_fuel_needed]: depths of expressions / statements, number of functions - recursion is
+   rejected, so each definition is entered at most once -, depths of the type definitions) is enough
+   for EVERY program, provided the exhaustiveness oracle (Exhaust/Useful.v, which has its own fuel
+   bound [Useful.fuel_bound], adequate by UsefulProofs.useful_fuel for well-typed patterns) does not
+   run out of its own fuel ([Hex], stated explicitly: partial). *)
+From GV Require Import Check.InferFuel Check.InferFuel2.
+
+Theorem C07_checker_result_monotone_in_fuel : forall intern f f' P r,
+  check_program_t intern f P = r -> r <> CNoFuel -> (f <= f')%nat -> check_program_t intern f' P = r.
+Proof. exact check_program_t_mono. Qed.
+Print Assumptions C07_checker_result_monotone_in_fuel.
+
+Theorem C07_checker_terminates_within_a_computable_fuel_partial : forall intern,
+  (forall D ps ty, nf (check_exhaustiveness intern D ps ty)) ->
+  forall P fuel, (check_fuel_needed P <= fuel)%nat -> check_program_t intern fuel P <> CNoFuel.
+Proof. exact adequacy_program. Qed.
+Print Assumptions C07_checker_terminates_within_a_computable_fuel_partial.
